@@ -116,6 +116,9 @@ func (en *Engine) step(st *State) []*State {
 	if f.pc >= len(f.block.Instrs) {
 		fail("fell off block %d of %s", f.block.Index, f.fn.Name())
 	}
+	if len(st.frames) == 1 && f.spec != nil && len(f.spec.fc.NamedCuts) > 0 {
+		en.namedCuts(st, f)
+	}
 	if len(st.frames) == 1 && f.spec != nil && len(f.spec.fc.Cuts) > 0 && f.pc > 0 {
 		if c, ok := f.block.Instrs[f.pc-1].(*ssa.Call); ok {
 			if n := en.callOrdinal(f.fn, c); n > 0 {
@@ -738,18 +741,27 @@ func (en *Engine) callOrdinal(fn *ssa.Function, c *ssa.Call) int {
 
 // applyCut proves the cut assertion at this point, forgets the listed locals and continues with the assertion only.
 func (en *Engine) applyCut(st *State, f *Frame, cs *CutSpec) {
-	en.usedCuts[fmt.Sprintf("%s#call%d", en.curFunc, cs.Call)] = true
+	en.usedCuts[fmt.Sprintf("%s#call%d%s", en.curFunc, cs.Call, cs.Anchor)] = true
 	en.flushSide(st)
 	sc := *f.spec
 	sc.st = st
 	sc.locals = en.localsResolver(st, f)
 	g := sc.evalBool(cs.Assert.Expr)
-	o := en.addObl(st, fmt.Sprintf("cut@call%d", cs.Call), g, fmt.Sprintf("cut after call#%d: %s", cs.Call, cs.Assert.Src), cs.Assert.Line)
+	label := fmt.Sprintf("call%d", cs.Call)
+	if cs.Anchor != "" {
+		label = strings.ReplaceAll(cs.Anchor, " ", "_")
+	}
+	o := en.addObl(st, "cut@"+label, g, fmt.Sprintf("cut (%s): %s", label, cs.Assert.Src), cs.Assert.Line)
 	o.Alg = true
+	// continue with the entry assumptions and the cut assertions only
+	nfacts := len(st.facts)
+	_ = nfacts
+	st.facts = append([]*Term(nil), st.persist...)
 	for _, h := range cs.Havoc {
 		id, ok := h.Expr.(*ast.Ident)
 		if !ok {
-			fail("cut havoc: only local names are supported")
+			en.havocLvalue(st, &sc, h)
+			continue
 		}
 		v, ok := sc.locals(id.Name)
 		if !ok {
@@ -758,6 +770,10 @@ func (en *Engine) applyCut(st *State, f *Frame, cs *CutSpec) {
 		p, ok := v.(PtrV)
 		if !ok {
 			fail("cut havoc: %s is not an addressable local", id.Name)
+		}
+		if p.R.kind == "param" {
+			en.havocLvalue(st, &sc, SpecExpr{Src: "*" + id.Name, Expr: &ast.StarExpr{X: id}})
+			continue
 		}
 		var facts []*Term
 		st.mem[p.R] = freshCell(p.R.typ, p.R.name+".c", &facts)
@@ -768,5 +784,122 @@ func (en *Engine) applyCut(st *State, f *Frame, cs *CutSpec) {
 	sc2 := *f.spec
 	sc2.st = st
 	sc2.locals = en.localsResolver(st, f)
+	before := len(st.facts)
 	st.assume(sc2.evalBool(cs.Assert.Expr))
+	// havoc typing facts and the assertion persist across later cuts
+	st.persist = append(st.persist, st.facts[len(st.persist):before]...)
+	st.persist = append(st.persist, st.facts[before:]...)
+}
+
+// namedCuts applies cuts anchored at "before call NAME#K", "after call NAME#K" or "after store LOCAL".
+func (en *Engine) namedCuts(st *State, f *Frame) {
+	anchors := en.cutAnchors(f.fn, f.spec.fc)
+	if f.pc < len(f.block.Instrs) {
+		if cs, ok := anchors.before[f.block.Instrs[f.pc]]; ok {
+			for _, c := range cs {
+				key := 1000 + c.idx
+				if !st.cutDone[key] {
+					st.cutDone[key] = true
+					en.applyCut(st, f, c.cs)
+				}
+			}
+		}
+	}
+	if f.pc > 0 {
+		if cs, ok := anchors.after[f.block.Instrs[f.pc-1]]; ok {
+			for _, c := range cs {
+				key := 1000 + c.idx
+				if !st.cutDone[key] {
+					st.cutDone[key] = true
+					en.applyCut(st, f, c.cs)
+				}
+			}
+		}
+	}
+}
+
+type anchoredCut struct {
+	idx int
+	cs  *CutSpec
+}
+
+type cutAnchorSet struct {
+	before, after map[ssa.Instruction][]anchoredCut
+}
+
+func (en *Engine) cutAnchors(fn *ssa.Function, fc *FuncContract) *cutAnchorSet {
+	if a, ok := en.anchorCache[fn]; ok {
+		return a
+	}
+	a := &cutAnchorSet{before: map[ssa.Instruction][]anchoredCut{}, after: map[ssa.Instruction][]anchoredCut{}}
+	for i, cs := range fc.NamedCuts {
+		parts := strings.Fields(cs.Anchor) // before|after call|store NAME[#K]
+		name, k := parts[2], 1
+		if j := strings.Index(name, "#"); j >= 0 {
+			fmt.Sscanf(name[j+1:], "%d", &k)
+			name = name[:j]
+		}
+		var target ssa.Instruction
+		switch parts[1] {
+		case "call":
+			n := 0
+			for _, b := range fn.Blocks {
+				for _, ins := range b.Instrs {
+					c, ok := ins.(*ssa.Call)
+					if !ok {
+						continue
+					}
+					cn := ""
+					if sf := c.Call.StaticCallee(); sf != nil {
+						cn = sf.Name()
+					}
+					if cn == name {
+						n++
+						if n == k && target == nil {
+							target = ins
+						}
+					}
+				}
+			}
+		case "store":
+			// last store (in block order) into the local named `name`
+			for _, b := range fn.Blocks {
+				for _, ins := range b.Instrs {
+					s, ok := ins.(*ssa.Store)
+					if !ok {
+						continue
+					}
+					if baseAllocName(s.Addr) == name {
+						target = ins
+					}
+				}
+			}
+		}
+		if target == nil {
+			fail("cut anchor %q does not exist in %s", cs.Anchor, fn.Name())
+		}
+		ac := anchoredCut{idx: i, cs: cs}
+		if parts[0] == "before" {
+			a.before[target] = append(a.before[target], ac)
+		} else {
+			a.after[target] = append(a.after[target], ac)
+		}
+	}
+	en.anchorCache[fn] = a
+	return a
+}
+
+func baseAllocName(v ssa.Value) string {
+	for {
+		switch x := v.(type) {
+		case *ssa.IndexAddr:
+			v = x.X
+		case *ssa.FieldAddr:
+			v = x.X
+		case *ssa.Alloc:
+			return x.Comment
+		default:
+			return ""
+		}
+	}
 }
